@@ -10,7 +10,7 @@ for id in "$@"; do
   d=seeded/$id
   prop=$(python3 -c "import json;print(json.load(open('$d/meta.json'))['property'])")
   if [ -n "$(git -C /repo status --short)" ]; then echo "/repo not clean"; exit 2; fi
-  if ! git -C /repo apply "$d/patch.diff"; then echo "$id: patch does not apply"; continue; fi
+  if ! git -C /repo apply "$PWD/$d/patch.diff"; then echo "$id: patch does not apply"; continue; fi
   ./check "$prop" --budget "$budget" --no-evidence > /tmp/seedrecheck.log 2>&1
   rc=$?
   git -C /repo checkout -- .
